@@ -3,6 +3,7 @@
 // default limit).  Same line protocol as lean/Driver/C08.lean.  Keys and string values are handed over as
 // string_views into exact-size heap blocks without a terminating NUL and are freed right after each call.
 #include "common.h"
+#include "metrics_factories.h"
 
 #include <algorithm>
 #include <chrono>
@@ -17,6 +18,8 @@
 #include "opentelemetry/sdk/common/global_log_handler.h"
 #include "opentelemetry/sdk/metrics/aggregation/sum_aggregation.h"
 #include "opentelemetry/sdk/metrics/data/point_data.h"
+#include "opentelemetry/metrics/async_instruments.h"
+#include "opentelemetry/metrics/observer_result.h"
 #include "opentelemetry/sdk/metrics/export/metric_producer.h"
 #include "opentelemetry/sdk/metrics/meter_provider.h"
 #include "opentelemetry/sdk/metrics/metric_reader.h"
@@ -422,6 +425,41 @@ static std::string run_attr(const std::vector<std::string> &t)
   table.Set(*ma, std::unique_ptr<sm::Aggregation>(new sm::LongSumAggregation(true)));
   bool found = table.Has(*mb);
   if (found != eq) return "ERR table lookup and operator== disagree";
+  // the other ways the SDK offers to arrive at the same key must agree with the one above (equal, and hashing equally):
+  // AttributesProcessor::process(), the constructor without a processor (under the keep-everything processor), and the
+  // initializer-list constructor (lists of at most three entries)
+  {
+    AttrList a2;
+    if (!parse_attrs(t[3], a2, guarded)) return "bad-op";
+    sm::MetricAttributes via_process = proc->process(a2);
+    if (!(via_process == *ma) || via_process.GetHash() != ma->GetHash()) return "ERR process() and the filtered-map constructor disagree";
+    if (sm::AttributeHashGenerator()(via_process) != sm::AttributeHashGenerator()(*ma)) return "ERR AttributeHashGenerator differs on equal keys";
+    if (t[2] == "*")
+    {
+      sm::FilteredOrderedAttributeMap plain(a2);
+      if (!(plain == *ma) || plain.GetHash() != ma->GetHash()) return "ERR constructor without processor differs from the keep-everything processor";
+    }
+    if (a2.items.size() <= 3)
+    {
+      std::vector<std::pair<nostd::string_view, common::AttributeValue>> kv;
+      for (auto &h : a2.items) kv.emplace_back(nostd::string_view(h.key->data(), h.key->size()), h.value);
+      std::unique_ptr<sm::FilteredOrderedAttributeMap> il;
+      // under the keep-everything filter the processor may also be absent (nullptr): every other such case
+      const sm::AttributesProcessor *ilp = (t[2] == "*" && (t[3].size() + t[4].size()) % 2) ? nullptr : proc.get();
+      if (kv.size() == 0) il.reset(new sm::FilteredOrderedAttributeMap({}, ilp));
+      else if (kv.size() == 1) il.reset(new sm::FilteredOrderedAttributeMap({kv[0]}, ilp));
+      else if (kv.size() == 2) il.reset(new sm::FilteredOrderedAttributeMap({kv[0], kv[1]}, ilp));
+      else il.reset(new sm::FilteredOrderedAttributeMap({kv[0], kv[1], kv[2]}, ilp));
+      if (!(*il == *ma) || il->GetHash() != ma->GetHash()) return "ERR initializer-list constructor and KeyValueIterable constructor disagree";
+    }
+    // GetAllEnteries stops at the first `false` of its callback
+    sm::AttributesHashMap two;
+    two.Set(*ma, std::unique_ptr<sm::Aggregation>(new sm::LongSumAggregation(true)));
+    two.Set(*mb, std::unique_ptr<sm::Aggregation>(new sm::LongSumAggregation(true)));
+    size_t seen = 0;
+    bool all = two.GetAllEnteries([&](const sm::MetricAttributes &, sm::Aggregation &) { return ++seen < 1; });
+    if (all || seen != 1 || two.Size() != (eq ? 1u : 2u)) return "ERR GetAllEnteries / Size";
+  }
   std::string he = "-";
   if (eq) he = (ma->GetHash() == mb->GetHash() && sm::FilteredOrderedAttributeMapHash()(*ma) == sm::FilteredOrderedAttributeMapHash()(*mb)) ? "1" : "0";
   return "a=" + show_key(*ma) + " b=" + show_key(*mb) + " eq=" + (eq ? "1" : "0") + " hasheq=" + he;
@@ -458,8 +496,13 @@ static void take_points(const std::vector<sm::PointDataAttributes> &src, Points 
 {
   out.clear();
   for (auto &p : src)
-    out.emplace_back(show_key(p.attributes),
-                     static_cast<long long>(nostd::get<int64_t>(nostd::get<sm::SumPointData>(p.point_data).value_)));
+  {
+    const auto &val = nostd::get<sm::SumPointData>(p.point_data).value_;
+    // a double-valued instrument is fed whole numbers below 2^40: every sum is exact
+    out.emplace_back(show_key(p.attributes), nostd::holds_alternative<double>(val)
+                                                 ? static_cast<long long>(nostd::get<double>(val))
+                                                 : static_cast<long long>(nostd::get<int64_t>(val)));
+  }
 }
 
 static std::string show_collect(bool seen, bool fast, size_t limit, const Points &pts)
@@ -597,15 +640,23 @@ static std::string run_store(const std::vector<std::string> &t)
   std::vector<ParsedOp> ops;
   if (!parse_ops(vh::split_ops(t, 5), temps.size(), ops)) return "bad-op";
   bool fast = temps.size() == 1 && temps[0] == sm::AggregationTemporality::kDelta;
-  sm::InstrumentDescriptor desc = {"c", "", "", sm::InstrumentType::kCounter, sm::InstrumentValueType::kLong};
+  const bool dbl = t[1] == "stored";  // the double-valued storage: RecordDouble
+  sm::InstrumentDescriptor desc = {"c", "", "", sm::InstrumentType::kCounter,
+                                   dbl ? sm::InstrumentValueType::kDouble : sm::InstrumentValueType::kLong};
   sm::SyncMetricStorage storage(desc, sm::AggregationType::kSum, proc.get(), nullptr, limit);
   std::vector<std::shared_ptr<sm::CollectorHandle>> collectors;
   for (auto tp : temps) collectors.emplace_back(new Handle(tp));
   auto start = std::chrono::system_clock::now();
   return drive(
       ops, t[1] == "storeg",
-      [&](long long v, const AttrList &a) { storage.RecordLong(v, a, opentelemetry::context::Context{}); },
-      [&](long long v, bool) { storage.RecordLong(v, opentelemetry::context::Context{}); },
+      [&](long long v, const AttrList &a) {
+        if (dbl) storage.RecordDouble(static_cast<double>(v), a, opentelemetry::context::Context{});
+        else storage.RecordLong(v, a, opentelemetry::context::Context{});
+      },
+      [&](long long v, bool) {
+        if (dbl) storage.RecordDouble(static_cast<double>(v), opentelemetry::context::Context{});
+        else storage.RecordLong(v, opentelemetry::context::Context{});
+      },
       [&](size_t r) {
         bool seen = false;
         Points pts;
@@ -629,26 +680,44 @@ static std::string run_sdk(const std::vector<std::string> &t)
   std::vector<ParsedOp> ops;
   if (!parse_ops(vh::split_ops(t, 4), temps.size(), ops)) return "bad-op";
   bool fast = temps.size() == 1 && temps[0] == sm::AggregationTemporality::kDelta;
-  sm::MeterProvider mp;
+  // provider, registry, view and selectors through the constructors or the *Factory::Create overloads (metrics_factories.h)
+  const uint64_t hash = vhm::case_hash(t);
+  // the view goes into the ViewRegistry handed to the provider, or is added with MeterProvider::AddView afterwards
+  std::unique_ptr<sm::ViewRegistry> registry;
+  if (vhm::mix(hash, 1) % 2) registry = vhm::make_registry(hash);
+  auto view = vhm::make_view(hash, "c", "", "", sm::AggregationType::kDefault, nullptr, std::move(proc));
+  auto is   = vhm::make_isel(hash, sm::InstrumentType::kCounter, "c", "");
+  auto ms   = vhm::make_msel(hash, "m", "1", "s");
+  const bool view_first = registry != nullptr;
+  if (view_first) registry->AddView(std::move(is), std::move(ms), std::move(view));
+  auto mp_p             = vhm::make_provider(hash, std::move(registry), nullptr, nullptr).provider;
+  sm::MeterProvider &mp = *mp_p;
+  if (!view_first) mp.AddView(std::move(is), std::move(ms), std::move(view));
   std::vector<std::shared_ptr<Reader>> readers;
   for (auto tp : temps)
   {
     readers.emplace_back(new Reader(tp));
     mp.AddMetricReader(readers.back());
   }
-  {
-    std::unique_ptr<sm::View> view(new sm::View("c", "", "", sm::AggregationType::kDefault, nullptr, std::move(proc)));
-    std::unique_ptr<sm::InstrumentSelector> is(new sm::InstrumentSelector(sm::InstrumentType::kCounter, "c", ""));
-    std::unique_ptr<sm::MeterSelector> ms(new sm::MeterSelector("m", "1", "s"));
-    mp.AddView(std::move(is), std::move(ms), std::move(view));
-  }
   auto meter   = mp.GetMeter("m", "1", "s");
-  auto counter = meter->CreateUInt64Counter("c", "", "");
+  const bool dbl = t[1] == "sdkd";  // a double counter: DoubleCounter::Add -> RecordDouble
+  nostd::unique_ptr<opentelemetry::metrics::Counter<uint64_t>> counter;
+  nostd::unique_ptr<opentelemetry::metrics::Counter<double>> dcounter;
+  if (dbl) dcounter = meter->CreateDoubleCounter("c", "", "");
+  else counter = meter->CreateUInt64Counter("c", "", "");
   return drive(
       ops, t[1] == "sdkg",
-      [&](long long v, const AttrList &a) { counter->Add(static_cast<uint64_t>(v), a, opentelemetry::context::Context{}); },
+      [&](long long v, const AttrList &a) {
+        if (dbl) dcounter->Add(static_cast<double>(v), a, opentelemetry::context::Context{});
+        else counter->Add(static_cast<uint64_t>(v), a, opentelemetry::context::Context{});
+      },
       [&](long long v, bool with_ctx) {
-        if (with_ctx) counter->Add(static_cast<uint64_t>(v), opentelemetry::context::Context{});
+        if (dbl)
+        {
+          if (with_ctx) dcounter->Add(static_cast<double>(v), opentelemetry::context::Context{});
+          else dcounter->Add(static_cast<double>(v));
+        }
+        else if (with_ctx) counter->Add(static_cast<uint64_t>(v), opentelemetry::context::Context{});
         else counter->Add(static_cast<uint64_t>(v));
       },
       [&](size_t r) {
@@ -668,14 +737,97 @@ static std::string run_sdk(const std::vector<std::string> &t)
       });
 }
 
+// `series obs <readers> recn <prefix> <lo> <hi> <v> ; col <r> ; ...`: the same series table behind an OBSERVABLE counter with
+// the default limit.  `recn` adds v to the running totals of the sets {prefix: lo}, ..., {prefix: hi-1}; at every collection
+// the callback reports the running total of every set seen so far.  What the readers are given must then be what a
+// synchronous counter with the same additions would give (C17: async refines sync), in particular within the limit and with
+// the excess folded into the overflow series without losing anything.
+struct ObsState
+{
+  std::map<std::pair<std::string, long long>, long long> totals;
+};
+static void obs_callback(opentelemetry::metrics::ObserverResult result, void *state)
+{
+  auto *st = static_cast<ObsState *>(state);
+  auto r   = nostd::get<nostd::shared_ptr<opentelemetry::metrics::ObserverResultT<int64_t>>>(result);
+  for (auto &kv : st->totals)
+  {
+    AttrList a;
+    a.items.emplace_back();
+    Holder &h = a.items.back();
+    h.key.reset(new KeyBuf(kv.first.first, false));
+    h.value = static_cast<int64_t>(kv.first.second);
+    r->Observe(static_cast<int64_t>(kv.second), a);
+  }
+}
+static std::string run_obs(const std::vector<std::string> &t)
+{
+  if (t.size() < 3) return "bad-op";
+  std::vector<sm::AggregationTemporality> temps;
+  if (!parse_temps(t[2], temps)) return "bad-op";
+  std::vector<ParsedOp> ops;
+  if (!parse_ops(vh::split_ops(t, 3), temps.size(), ops)) return "bad-op";
+  for (auto &op : ops)
+    if (op.kind == 0 || (op.kind == 1 && op.value == 0)) return "bad-op";  // only recn (v >= 1) / col: one Observe per set and cycle
+  bool fast = temps.size() == 1 && temps[0] == sm::AggregationTemporality::kDelta;
+  const uint64_t hash = vhm::case_hash(t);
+  auto mp_p           = vhm::make_provider(hash, vhm::mix(hash, 1) % 2 ? vhm::make_registry(hash) : nullptr, nullptr, nullptr).provider;
+  sm::MeterProvider &mp = *mp_p;
+  std::vector<std::shared_ptr<Reader>> readers;
+  for (auto tp : temps)
+  {
+    readers.emplace_back(new Reader(tp));
+    mp.AddMetricReader(readers.back());
+  }
+  auto meter = mp.GetMeter("m", "1", "s");
+  auto obs   = meter->CreateInt64ObservableCounter("c", "", "");
+  ObsState st;
+  obs->AddCallback(obs_callback, &st);
+  std::vector<std::string> outs;
+  for (auto &op : ops)
+  {
+    if (op.kind == 1)
+    {
+      for (long long i = op.lo; i < op.hi; i++) st.totals[{op.prefix, i}] += op.value;
+      continue;
+    }
+    bool seen = false;
+    Points pts;
+    readers[op.reader]->Collect([&](sm::ResourceMetrics &rm) {
+      for (auto &sc : rm.scope_metric_data_)
+        for (auto &md : sc.metric_data_)
+          if (md.instrument_descriptor.name_ == "c")
+          {
+            seen = true;
+            take_points(md.point_data_attr_, pts);
+          }
+      return true;
+    });
+    if (temps[op.reader] == sm::AggregationTemporality::kDelta)
+    {
+      // a set whose total did not move since this reader's last collection is reported with the difference 0, where a
+      // synchronous counter reports no point: not a difference the property is about
+      Points nz;
+      for (auto &p : pts)
+        if (p.second != 0) nz.push_back(p);
+      pts.swap(nz);
+      if (fast && pts.empty()) seen = false;
+    }
+    outs.push_back(show_collect(seen, fast, sm::kAggregationCardinalityLimit, pts));
+  }
+  obs->RemoveCallback(obs_callback, &st);
+  return outs.empty() ? "-" : vh::join(outs, " ; ");
+}
+
 static std::string handle(const std::vector<std::string> &t)
 {
   if (t.empty()) return "bad-op";
   if (t[0] == "attr") return run_attr(t);
   if (t[0] == "series" && t.size() >= 2)
   {
-    if (t[1] == "store" || t[1] == "storeg") return run_store(t);
-    if (t[1] == "sdk" || t[1] == "sdkg") return run_sdk(t);
+    if (t[1] == "store" || t[1] == "storeg" || t[1] == "stored") return run_store(t);
+    if (t[1] == "sdk" || t[1] == "sdkg" || t[1] == "sdkd") return run_sdk(t);
+    if (t[1] == "obs") return run_obs(t);
   }
   return "bad-op";
 }
